@@ -103,8 +103,21 @@ def norm(v):
     return v
 
 
+def _mark_raw(v):
+    if isinstance(v, RawNumber):
+        return "\x01RAWNUM:" + str(v) + "\x01"
+    if isinstance(v, dict):
+        return {k: _mark_raw(x) for k, x in v.items()}
+    if isinstance(v, list):
+        return [_mark_raw(x) for x in v]
+    return v
+
+
 def dumps(v):
-    return json.dumps(v, ensure_ascii=False, separators=(",", ":"))
+    t = json.dumps(_mark_raw(v), ensure_ascii=False, separators=(",", ":"))
+    if "\\u0001RAWNUM:" in t:
+        t = re.sub(r'"\\u0001RAWNUM:([^"\\]*)\\u0001"', lambda m: m.group(1), t)
+    return t
 
 
 WS = ["", "", " ", "\n", "\t", "\r\n  ", "   "]
@@ -247,6 +260,21 @@ def sample_value(node, root, rng, depth=0):
     return "x"
 
 
+class RawNumber(str):
+    """a JSON number given by its text (dumps writes it bare)"""
+
+
+def leaf_is_amount(node, root):
+    try:
+        n, _ = resolve(node, root)
+    except Exception:
+        return True
+    if not isinstance(n, dict):
+        return True             # no schema knowledge: do not claim a number spelling is a change
+    txt = json.dumps(n)[:600]
+    return "num/amount" in txt or "num/percentage" in txt or "\\-?[0-9]+" in n.get("pattern", "") or n.get("type") in ("number", "integer")
+
+
 def object_schema(obj, node, root):
     """schema of a JSON object: its own $schema member wins (schema.Object payloads)"""
     if isinstance(obj, dict) and isinstance(obj.get("$schema"), str):
@@ -303,7 +331,7 @@ def spelling_note(v, op, payload):
     return None
 
 
-SPELLINGS = ("zero-amount-absent", "zero-amount-null", "amount-as-number")
+SPELLINGS = ("zero-amount-absent", "zero-amount-null", "amount-as-number", "uuid-spelling", "datetime-spelling")
 
 
 def enumerate_edits(env, rng):
@@ -364,6 +392,32 @@ def enumerate_edits(env, rng):
         else:
             if isinstance(v, str):
                 yield ("leaf-same-type", "set", path, change_string(v, rng), None)
+                # variants a forgiving reader might fold back onto the old value: trailing / leading junk, time suffixes,
+                # other letter case, and the bare JSON number with the same text (an amount or percentage may be written
+                # as a number: that is another spelling; anything else - codes, dates, keys - may not)
+                amountish = leaf_is_amount(node, root)
+                vs = [v + "T23:59:59", v + "T", v + "Z", v + " ", " " + v, v + "\t", v + ".0", v + "+", "0" + v,
+                      v.upper(), v.lower(), v[:1].upper() + v[1:], v + v[-1:], "urn:uuid:" + v, "{" + v + "}"]
+                vs = [x for i, x in enumerate(vs) if x != v and x not in vs[:i]]
+                for x in (rng.sample(vs, 4) if len(vs) > 4 else vs):
+                    if amountish and AMOUNT_LIKE.match(x) and AMOUNT_LIKE.match(v) and x.rstrip("%") and v.rstrip("%"):
+                        try:
+                            if Fraction(x.rstrip("%")) == Fraction(v.rstrip("%")) and x.endswith("%") == v.endswith("%"):
+                                continue        # the same amount with other zeros
+                        except (ValueError, ZeroDivisionError):
+                            pass
+                    unote = None
+                    if re.fullmatch(r"[0-9a-fA-F]{8}-[0-9a-fA-F]{4}-[0-9a-fA-F]{4}-[0-9a-fA-F]{4}-[0-9a-fA-F]{12}", v):
+                        y = x.lower()
+                        y = y[9:] if y.startswith("urn:uuid:") else y
+                        y = y[1:-1] if y.startswith("{") and y.endswith("}") else y
+                        if y == v.lower():
+                            unote = "uuid-spelling"     # the same identifier written in another of the RFC 4122 text forms
+                    if re.fullmatch(r"[0-9]{4}-[0-9]{2}-[0-9]{2}T[0-9]{2}:[0-9]{2}:[0-9]{2}", v) and re.fullmatch(re.escape(v) + r"\.0+", x):
+                        unote = "datetime-spelling"     # the same instant with a zero fraction of a second
+                    yield ("leaf-variant", "set", path, x, unote)
+                if re.fullmatch(r"-?[0-9]+(\.[0-9]+)?", v) and not amountish and not (v.startswith("0") and len(v) > 1 and not v.startswith("0.")):
+                    yield ("leaf-number-same-text", "set", path, RawNumber(v), None)
             elif isinstance(v, bool):
                 yield ("leaf-same-type", "set", path, not v, None)
             elif isinstance(v, int):
